@@ -16,6 +16,13 @@
                   running loop.  The index objects are the same (one `asyncio.run(...)` per work package, the
                   library's own synchronous entry points).
 
+  an abandoned loop  (with a second loop) one more choice ("abandon",), enabled while a request of round 1 is under
+                  way: the caller gives up - what `asyncio.run(asyncio.wait_for(work, timeout))` does when the timeout
+                  fires, or Ctrl-C during a synchronous call: everything that runs on the first loop is cancelled, the
+                  loop is wound up and closed; requests of round 1 that had not arrived yet never do.  Round 2 arrives
+                  on the fresh loop.  The moment is named after what was pending: a batch hold timer
+                  ("during-batch-hold-time"), else a model call ("during-model-call").
+
 The class is put on the `Env` object that the explorer created (`adopt`), the explorer itself is unchanged.
 """
 from __future__ import annotations
@@ -40,7 +47,7 @@ def is_injected(e):
 
 class C19Env(aio.Env):
     @classmethod
-    def adopt(cls, env, world, first_round, second_loop=False, fail=False):
+    def adopt(cls, env, world, first_round, second_loop=False, fail=False, abandon=False):
         env.__class__ = cls
         env.w = world
         env.first_round = list(first_round)     # labels of the requests of round 1
@@ -53,6 +60,11 @@ class C19Env(aio.Env):
         env.loop_of = {}            # request label -> number of the loop it ran on
         env.old_loops = 0
         env.monitor = None          # called between two loop iterations of a drain
+        env.abandon = bool(abandon) and env.second_loop
+        env.abandoned = False       # the choice ("abandon",) was taken
+        env.abandon_phase = None    # what was going on at that moment
+        env.cut = set()             # requests that were under way and went with the loop
+        env.dropped = set()         # requests of round 1 that had not arrived yet: they never do
         return env
 
     def burst(self, labels):
@@ -69,6 +81,9 @@ class C19Env(aio.Env):
             # the failure left requests waiting for ever and nothing else can happen: the next round arrives
             self.released = True
             out = self._filter(aio.Env.enabled(self))
+        if self.abandon and not self.switched and any(not t.done() for t in self._harness.values()):
+            # listed last: the schedule without deviations never abandons
+            out.append(("abandon",))
         return out
 
     def _filter(self, out):
@@ -90,6 +105,20 @@ class C19Env(aio.Env):
                         break
                 else:
                     raise aio.HarnessError(f"burst {label!r}: request {k!r} was already started")
+            return
+        if label[0] == "abandon":
+            self.trace.append(label)
+            self.abandoned = True
+            self.abandon_phase = ("during-batch-hold-time" if self.loop.pending_timers() else
+                                  "during-model-call" if any(not x[1].done() for x in self._externals) else
+                                  "while-nothing-is-pending")
+            self.cut = {k for k, t in self._harness.items() if not t.done()}
+            for a in self._arrivals:
+                if not a[3] and a[0] in self.first_round:
+                    a[3] = True
+                    self.dropped.add(a[0])
+            self.released = True        # round 2 does not wait for results of round 1 any more
+            self._next_loop()
             return
         if label[0] == "ext" and label[1][0] == "model-raises":
             w = self.w
@@ -114,7 +143,7 @@ class C19Env(aio.Env):
             self._next_loop()
 
     def started(self):
-        return {a[0] for a in self._arrivals if a[3]}
+        return {a[0] for a in self._arrivals if a[3] and a[0] not in self.dropped}
 
     # -- the second loop
     def _next_loop(self):
